@@ -14,7 +14,9 @@ from mc import kineto
 
 EPOCH = 1000  # file timestamps are EPOCH + grid time; the loader must shift them away
 
+ANNO = ["anno_fwd", "anno_bwd", "anno_opt", "anno_misc"]
 NAMES = {
+    "A": ANNO,
     "P": ["void kern_a(float*)", "kern_b", "void at::native::elementwise<float>(int)", "sm80_gemm"],
     "M": ["ncclKernel_AllReduce_RING_LL_Sum_float(ncclWorkElem)", "ncclDevKernel_AllGather_RING(ncclDevComm*)",
           "ncclKernel_ReduceScatter", "ncclKernel_SendRecv"],
@@ -22,8 +24,8 @@ NAMES = {
           "Memcpy DtoH (Device -> Pageable)"],
     "O": ["Stream Sync", "Stream Wait Event"],
 }
-CATS = {"P": "kernel", "M": "kernel", "Y": "gpu_memcpy", "O": "cuda_sync"}
-STREAM = {"P": 7, "M": 9, "Y": 11, "O": 7}
+CATS = {"A": "gpu_user_annotation", "P": "kernel", "M": "kernel", "Y": "gpu_memcpy", "O": "cuda_sync"}
+STREAM = {"A": 7, "P": 7, "M": 9, "Y": 11, "O": 7}
 
 
 def spans(T: int, zero: bool = True) -> List[Tuple[int, int]]:
@@ -38,6 +40,8 @@ def item_event(item: Sequence[Any], corr: int) -> Dict[str, Any]:
         if name.startswith("Memset"):
             return kineto.memset(name, EPOCH + s, e - s, stream, corr)
         return kineto.memcpy(name, EPOCH + s, e - s, stream, corr, bw=1.0)
+    if CATS[ty] == "gpu_user_annotation":
+        return kineto.gpu_annotation(name, EPOCH + s, e - s, stream)
     if CATS[ty] == "cuda_sync":
         return kineto.cuda_sync(name, EPOCH + s, e - s, stream, corr)
     return kineto.kernel(name, EPOCH + s, e - s, stream, corr)
@@ -58,12 +62,13 @@ def events_for(items: Sequence[Sequence[Any]], with_launch: bool = True) -> List
 class Menu:
     """loaded menu trace: item -> event id"""
 
-    def __init__(self, T: int, types: Sequence[str], nnames: int, copies: int, ranks: int = 1,
-                 zero: bool = True) -> None:
+    def __init__(self, T: int = 4, types: Sequence[str] = "PM", nnames: int = 1, copies: int = 2, ranks: int = 1,
+                 zero: bool = True, items: Any = None) -> None:
         from mc import htaenv
 
-        self.items = [(s, e, ty, ni, cp) for (s, e) in spans(T, zero) for ty in types
-                      for ni in range(nnames) for cp in range(copies)]
+        self.items = list(items) if items is not None else [
+            (s, e, ty, ni, cp) for (s, e) in spans(T, zero) for ty in types
+            for ni in range(nnames) for cp in range(copies)]
         evs = [kineto.cpu_op("aten::root", EPOCH, 1)]
         self.id: Dict[Tuple, int] = {}
         corr = 10
@@ -102,3 +107,17 @@ def multisets(items: Sequence[Tuple], kmax: int, kmin: int = 1, max_mult: int = 
                 out.append(b + (cnt,))
             if ok:
                 yield tuple(out)
+
+
+def row_orders(n: int, full_upto: int = 2) -> List[List[int]]:
+    """row (file) orders tried for a world of n activities: all permutations up to full_upto rows,
+    else identity, reversal and the two rotations by one"""
+    ident = list(range(n))
+    if n <= full_upto:
+        return [list(p) for p in itertools.permutations(ident)]
+    outs = [ident, ident[::-1]] if n > full_upto + 1 else [ident, ident[::-1], ident[1:] + ident[:1], ident[-1:] + ident[:-1]]
+    res = []
+    for o in outs:
+        if o not in res:
+            res.append(o)
+    return res
